@@ -88,13 +88,17 @@ pub fn check_program(c: &Program) -> Verdict {
     for (step, op) in c.ops.iter().enumerate() {
         let prev_model = model.clone();
         let prev_acc = acc.clone();
-        let acc_digits = bdoracle::dec::ndigits(&model.int) as usize;
+        // size guards look at the accumulator as the library holds it (the model may be in a shorter,
+        // value-equal representation)
+        let acc_repr = dec_of(&acc);
+        let acc_digits = (bdoracle::dec::ndigits(&acc_repr.int) as usize).max(bdoracle::dec::ndigits(&model.int) as usize);
+        let acc_scale = if acc_repr.scale.abs() > model.scale.abs() { acc_repr.scale } else { model.scale };
         let name: String;
         match op {
             Op::Bin { op, overload, operand } => {
                 let op = op % 3;
                 let j = pick_idx(*operand, pool.len());
-                if op == 2 && (acc_digits + c.pool[j].ndigits() > MAX_DIGITS || (model.scale + c.pool[j].scale as i128).abs() > MAX_SCALE) {
+                if op == 2 && (acc_digits + c.pool[j].ndigits() > MAX_DIGITS || (acc_scale + c.pool[j].scale as i128).abs() > MAX_SCALE) {
                     skipped += 1;
                     continue;
                 }
@@ -190,7 +194,7 @@ pub fn check_program(c: &Program) -> Verdict {
                 kinds.insert("half");
             }
             Op::Square => {
-                if acc_digits * 2 > MAX_DIGITS || (model.scale * 2).abs() > MAX_SCALE {
+                if acc_digits * 2 > MAX_DIGITS || (acc_scale * 2).abs() > MAX_SCALE {
                     skipped += 1;
                     continue;
                 }
@@ -243,7 +247,12 @@ pub fn check_program(c: &Program) -> Verdict {
             }
         }
         // ---- invariant after the step
+        let trace = std::env::var("VERIF_TRACE").is_ok();
+        let t_step = std::time::Instant::now();
         let got = dec_of(&acc);
+        if trace {
+            eprintln!("step {} {} digits={} scale={}", step, name, bdoracle::dec::ndigits(&got.int), got.scale);
+        }
         ensure!(v, got.eq_val(&model), format!("C19/value-after:{}", name), "step {} ({}): accumulator {} but the exact value is {}", step, name, got.show(), model.show());
         if v.fail.is_some() {
             return v;
@@ -264,6 +273,9 @@ pub fn check_program(c: &Program) -> Verdict {
         ensure!(v, (acc == prev_acc) == (want == Ordering::Equal), "C19/eq-prev", "step {} ({}): == with previous value disagrees with the exact order {:?}", step, name, want);
         if v.fail.is_some() {
             return v;
+        }
+        if trace {
+            eprintln!("   checks took {:?}", t_step.elapsed());
         }
     }
     let steps = c.ops.len() - skipped;
